@@ -12,7 +12,8 @@ harness is the kernel) and the pending read is compared with the reference model
 
 * satisfiable per its own contract  -> the future must be complete with exactly the model's bytes
   (partial reads: any non-empty prefix of the delivered rest, never longer than n; read_into: the
-  count, the filled prefix, the rest of the caller buffer untouched);
+  count, the filled prefix, the caller buffer keeps its length and everything beyond the count is the
+  untouched sentinel pattern);
 * not satisfiable, more may come    -> must still be pending (never returns short/early);
 * not satisfiable, stream ended     -> StreamClosedError carrying the real error (None for FIN, the
   injected OSError for RST); a future still pending at quiescence is the lost-data/hang oracle;
@@ -37,6 +38,11 @@ Sensitivity (quick tier, seed 1, scratch copies of tornado/iostream.py; every mu
   M6 _find_read_pos: partial ``min(self._read_bytes, size)`` -> ``size`` (returns more than n) -> C11.wrong_data / partial_length
   M7 _read_to_buffer: FIN (bytes_read == 0) no longer closes the stream                        -> C11.livelock
   M8 _read_to_buffer: caller-buffer write offset off by one (overwrites the last byte)         -> C11.wrong_data
+  M10 read_into: "all from the buffer" branch also taken for partial reads with 1..n-1 buffered bytes, so
+      ``buf[:] = view[:n]`` shrinks the caller's bytearray (count and data still right)     -> seeds 1,2,3:
+      C11.read_into_resized_caller_buffer (caller buffers are pre-filled with a position-dependent sentinel
+      pattern; length and the whole tail beyond the returned count are compared, for every read_into
+      variant - labels into[_partial]_leftover_{lt,eq,gt}_n - and also when the read fails)
   (M9 ``>= next_find_pos`` -> ``>`` survives: it only changes how often the buffer is scanned - equivalent.)
 """
 import collections
